@@ -66,6 +66,20 @@ func TestC18(t *testing.T) {
 			}
 		}
 	}
+	// the application had given its exec.Cmd a standard input of its own (a pipe nobody writes to or closes)
+	for _, proto := range []string{"netrpc", "grpc"} {
+		for _, h := range [][]string{nil, {"callback"}, {"print:b"}} {
+			ops := append([]string{"new", "start", "client", "dispense"}, h...)
+			ops = append(ops, "kill")
+			cells = append(cells, Cell{
+				Name:     fmt.Sprintf("%s mux=false tls=none launch=cmd history=[%s] the Cmd came with a stdin of the application's own", proto, strings.Join(h, ",")),
+				Plugin:   PluginConf{CookieKey: cookieKey, CookieValue: cookieVal, Legacy: 1, LegacyProto: proto, GRPCServer: true, TLS: "none", ExitMarker: "auto"},
+				Host:     HostConf{Allowed: []string{"netrpc", "grpc"}, TLS: "none", Launch: "cmd", Legacy: 1, SkipHostEnv: true, PresetStdin: "idle-pipe"},
+				Ops:      ops,
+				LeakWait: 7000,
+			})
+		}
+	}
 	// a plugin is killed through a client that had been reattached to it for a while (25 s)
 	for _, proto := range []string{"netrpc", "grpc"} {
 		cells = append(cells, Cell{
